@@ -73,6 +73,14 @@ pub struct CreateQueueOutcome {
     pub wal_bytes_written: u64,
 }
 
+/// Verification-only re-exports (cargo feature `verif`, off by default): lets an external
+/// monitor drive the record writer/reader over its own in-memory `BlockWrite`/`BlockRead`.
+#[cfg(feature = "verif")]
+pub mod verif_hooks {
+    pub use crate::frame::FrameWriter;
+    pub use crate::recordlog::{RecordReader, RecordWriter};
+}
+
 #[cfg(test)]
 mod tests;
 
